@@ -12,6 +12,7 @@ string values that conform to a PVL specification.
 # top level of this library.
 
 import datetime
+import math
 import re
 import textwrap
 
@@ -459,6 +460,11 @@ class PVLEncoder(object):
             else:
                 return self.grammar.false_keyword
         elif isinstance(value, self.numeric_types):
+            if not isinstance(value, int) and not math.isfinite(value):
+                raise ValueError(
+                    f"PVL has no way to write the number {value}: it would "
+                    "be read back as a string."
+                )
             return str(value)
         elif isinstance(value, str):
             return self.encode_string(value)
